@@ -194,15 +194,22 @@ def check(chk):
     reg_e = proto.func('ErrorMessageSubclass.__init__')
     from .. import sem as _sem4
     g4, fl4 = _sem4.flow_of(reg_e)
-    regs4 = [n for n in g4.stmt_nodes() if n.kind == 'stmt' and isinstance(n.ast, ast.Assign) and src(n.ast.targets[0]) == 'error_classes[cls.error_code]' and src(n.ast.value) == 'cls']
+    # error_classes[<code>] = cls, the code read from the class (cls.error_code) or from the class dict, possibly through a local
+    regs4 = [n for n in g4.stmt_nodes() if n.kind == 'stmt' and isinstance(n.ast, ast.Assign) and isinstance(n.ast.targets[0], ast.Subscript) and src(n.ast.targets[0].value) == 'error_classes'
+             and src(n.ast.value) == 'cls']
     if len(regs4) != 1:
-        raise AnalysisError('ErrorMessageSubclass.__init__: error_classes[cls.error_code] = cls not found')
+        raise AnalysisError('ErrorMessageSubclass.__init__: error_classes[<code>] = cls not found')
+    ktxt = src(regs4[0].ast.targets[0].slice)
+    kres = src(_sem4.resolve(reg_e, regs4[0].ast.targets[0].slice))
+    chk.judge(kres in ('cls.error_code', "dct.get('error_code')", "dct['error_code']", "dct.get('error_code', None)"), 'C04.registry', regs4[0].ast, 'the registry key is the class\'s error code (%s)' % kres,
+              'classes are registered under %s, not under their error code' % kres)
     states4 = list(fl4.at(regs4[0]))
-    only_none = bool(states4) and all(fa.knows('cls.error_code is None') is False and fa.knows('cls.error_code') is None and
-                                      all(k in ('cls.error_code is None',) for k, _p in fa.items if 'error_code' in k) for fa, _c in states4)
+    about = lambda k: ('error_code' in k) or (ktxt in k.split())
+    only_none = bool(states4) and all(fa.knows('%s is None' % ktxt) is False and fa.knows(ktxt) is None and
+                                      all(k in ('%s is None' % ktxt,) or k.startswith('(') for k, _p in fa.items if about(k)) for fa, _c in states4)
     chk.judge(only_none, 'C04.registry', regs4[0].ast, 'a class is registered under its error code unless the code is None (0x0000 is a code)',
               'the registration is guarded by %s: ServerError has error code 0x0000, which such a test excludes, so an ERROR frame with code 0 decodes to the generic ErrorMessage '
-              '("Unknown") instead of ServerError' % sorted(k for fa, _c in states4 for k, _p in fa.items if 'error_code' in k))
+              '("Unknown") instead of ServerError' % sorted(k for fa, _c in states4 for k, _p in fa.items if about(k)))
     interp0 = Interp(proto, M.folder)
     for code, c in sorted(errs.items()):
         if code not in spec.ERROR_CODES:
